@@ -200,5 +200,5 @@ func Harness_C08_q_two_writers() {
 }
 
 func Harness_C08_t_three_writers() {
-	c08Run(3, []int{1, 1025, 2049}, 3)
+	c08Run(3, []int{1, 2049}, 2)
 }
